@@ -344,6 +344,15 @@ impl<'a> Parser<'a> {
         }
         self.check_no_attributes();
 
+        #[cfg(yarel_verif)]
+        crate::verif::emit(
+            crate::verif::EV_PARSE,
+            format!(
+                "{{\"e\":\"ParseEnd\",\"errors\":{},\"panic\":{}}}",
+                self.errors.borrow().len(),
+                self.panic_mode.get() as u8
+            ),
+        );
         let had_error = !self.errors.borrow().is_empty();
         if had_error {
             return Err(Error::with_messages(
@@ -988,6 +997,11 @@ impl<'a> Parser<'a> {
     }
 
     fn synchronise(&mut self) {
+        #[cfg(yarel_verif)]
+        crate::verif::emit(
+            crate::verif::EV_PARSE,
+            "{\"e\":\"Synchronise\"}".to_string(),
+        );
         self.panic_mode.set(false);
 
         while self.current.kind != TokenKind::Eof {
@@ -1318,6 +1332,15 @@ impl<'a> Parser<'a> {
     }
 
     fn error_at(&self, token: Token, message: &str) {
+        #[cfg(yarel_verif)]
+        crate::verif::emit(
+            crate::verif::EV_PARSE,
+            format!(
+                "{{\"e\":\"ErrorAt\",\"line\":{},\"recorded\":{}}}",
+                token.line,
+                !self.panic_mode.get() as u8
+            ),
+        );
         if self.panic_mode.get() {
             return;
         }
